@@ -2,4 +2,7 @@
 EXTENDS TextViewMC
 TvAlphabet == {"P","DIV","H","T","INL","A","AJ","BR","LI","UL","IMG","SHR","SKF"}
 TvRoots    == {"P","DIV","H","T","UL","INL","A","IMG","SHR","SKF"}
+\* the smallest alphabet that shows defect 31 (two inline-rooted text blocks around an empty paragraph)
+D31Alphabet == {"P", "T", "A", "INL"}
+D31Roots    == {"P", "A", "INL"}
 ====
